@@ -20,16 +20,30 @@ def _pid():
     return os.getpid()
 
 
+class RequiredArgsError(Exception):
+    """An ordinary user exception whose class cannot be re-created from its pickled args (cls('1-b') lacks the second argument)."""
+    def __init__(self, a, b):
+        super().__init__(f'{a}-{b}')
+
+
+def _required_args_error(x): return RequiredArgsError(x, 'b')
+
+
+def _huge_error(x): return InjectedError((x, 'x' * 200_000))
+
+
 EXC_KINDS = {'custom': InjectedError, 'ValueError': ValueError, 'AssertionError': AssertionError, 'EOFError': EOFError,
-             'BrokenPipeError': BrokenPipeError, 'TypeError': TypeError, 'KeyError': KeyError}
+             'BrokenPipeError': BrokenPipeError, 'TypeError': TypeError, 'KeyError': KeyError,
+             'cannot-unpickle': _required_args_error, 'huge': _huge_error}
 
 
 class TenTimes:
     """filter(x) = (pid, 10*x); raises for x in faults (InjectedError(x), or the builtin exception type named by
     `exc` - user filters raise ordinary exceptions too).  Records who handled what."""
-    def __init__(self, faults=(), exc='custom'):
+    def __init__(self, faults=(), exc='custom', fan='one'):
         self.faults = tuple(faults)
         self.exc = exc
+        self.fan = fan          # 'one': one output per item; 'two': two outputs per item; 'skip1': item 1 yields nothing; 'none1': item 1's output is None
 
     def filter(self, x):
         pid = _pid()
@@ -39,10 +53,15 @@ class TenTimes:
         except Exception:
             pass
         if x in self.faults: raise EXC_KINDS[self.exc](x)
+        if self.fan == 'two': return iter([(pid, 10 * x), (pid, 10 * x + 1)])
+        if self.fan == 'skip1' and x == 1: return iter([])
+        if self.fan == 'none1' and x == 1: return None
         return (pid, 10 * x)
 
 
 class TenTimesGen(TenTimes):
     """Same, but `filter` is a generator (what CobaMultiprocessor.ProcessFilter expects of its inner filter)."""
     def filter(self, x):
-        yield TenTimes.filter(self, x)
+        out = TenTimes.filter(self, x)
+        if hasattr(out, '__next__'): yield from out
+        else: yield out
